@@ -36,7 +36,7 @@ RULE = ('checksum: sizes k*cs-1, k*cs, k*cs+1 (k=0..3) x chunk sizes {1,2,7,64,4
         'errno of errno.errorcode x every directory/path state. non-trivial = non-empty content or an injected '
         'fault or a directory-tree state; distinct by the full parameter tuple')
 REQUIRED_CLAUSES = [
-    'documented-keyword-call', 'ensure-directory-behind-symlink', 'falsy-remove-callable-is-used', 'no-descriptor-left-open', 'checksum-reentrant-at-yield', 'checksum-equals-whole-digest', 'errno-decides-not-exception-class', 'tempfile-dirs-removed-between-calls',
+    'under-warnings-as-errors', 'documented-keyword-call', 'ensure-directory-behind-symlink', 'falsy-remove-callable-is-used', 'no-descriptor-left-open', 'checksum-reentrant-at-yield', 'checksum-equals-whole-digest', 'errno-decides-not-exception-class', 'tempfile-dirs-removed-between-calls',
     'last-bytes-tail-and-count', 'last-bytes-n0', 'last-bytes-n-exceeds-size',
     'seek-EINVAL-fallback', 'seek-other-errno',
     'tempfile-new-distinct', 'tempfile-content-exact', 'tempfile-existing-untouched',
@@ -795,7 +795,7 @@ def _nfds():
         return None
 
 
-def evaluate(ctx, case):
+def _evaluate_nomodes(ctx, case):
     from oslo_utils import fileutils
     from vlib import callstyle
     fileutils = callstyle.proxy(fileutils)
@@ -812,6 +812,10 @@ def evaluate(ctx, case):
         ctx.clause('no-descriptor-left-open')
         if after > before:
             ctx.fail('no-descriptor-left-open', case, {'open_before': before, 'open_after': after})
+
+
+from vlib import envmodes  # noqa: E402
+evaluate = envmodes.with_modes(_evaluate_nomodes, warn=lambda case: True)
 
 
 # ----------------------------------------------------------------------
